@@ -116,7 +116,7 @@ def make_jobs(items, want, N, settings=None, timeout=150, extra=None):
             j["force_cyclic"] = True
         if extra:
             j.update(extra)
-        for k in ("dparam", "term_goals", "stat_goals", "K", "force_cyclic", "user_typed", "tail_goals"):
+        for k in ("dparam", "term_goals", "stat_goals", "K", "force_cyclic", "user_typed", "tail_goals", "solvability_check"):
             if k in it:
                 j[k] = it[k]
         jobs.append(j)
